@@ -83,6 +83,16 @@ CLAIMS["C03"] = dict(
     design="DESIGN.md section 4, C03",
 )
 
+CLAIMS["C09"] = dict(
+    text=("Deductive proof of the totality clause for the parsers: for every input string or byte slice, Unmarshal of the Transport, Transports, "
+          "Session, Range, RTP-Info, WWW-Authenticate, Authorization and KeyMgmt headers, the key=value tokenizer, and every MIKEY payload "
+          "parser (message, header, KEMAC, SP, T, RAND, key-data sub-payload) raises no run-time panic: every index, slice bound, nil "
+          "dereference, conversion and make is an obligation discharged for all inputs and all loop iterations. The MIKEY length contracts "
+          "(consumed bytes within the buffer) are proved per payload kind and used at the dynamic call through the Payload interface."),
+    note=TRUST + "Round-trip identity, purity of Marshal and independence of map iteration order are NOT decided by this check (the order dependence of Transport/Range parsing is described in DESIGN.md section 5). Map iteration is modelled as yielding arbitrary key/value pairs; the iterator of strings.SplitSeq is assumed well behaved.",
+    design="DESIGN.md section 4, C09",
+)
+
 NOT_APPLICABLE = {
     "C11": "process-level property over channels, goroutines and timeouts (no deadlock, cleanup of goroutines/sessions): not expressible as a contract on one call or one data structure; the leaf validators it relies on are covered under other properties",
     "C13": "liveness and schedule property (Close returns in bounded time under all interleavings, no leaked goroutine or socket, callback ordering): outside sequential contract-based verification",
